@@ -524,8 +524,21 @@ func c14ExecVal(a []string) string {
 		class = "ok"
 	}
 	recOK := len(raw) > 0 && rec != nil && string(rec) == string(raw[0])
+	// only the leaf (rawCerts[0]) authenticates the peer: appending the expected peer's certificate to
+	// another leaf must not change the verdict for that leaf
+	chain := "ok"
+	if strings.HasPrefix(a[2], "c") {
+		k, _ := strconv.Atoi(a[2][1:])
+		certs := c14Certs()
+		j := (k + 1) % len(certs)
+		alone, _ := webrtc.VerifVerifyPeerCertificate([][]byte{certs[j].der}, fps, disabled)
+		withTail, _ := webrtc.VerifVerifyPeerCertificate([][]byte{certs[j].der, certs[k].der}, fps, disabled)
+		if alone != withTail {
+			chain = "bad"
+		}
+	}
 
-	return fmt.Sprintf("%s rec=%s", class, b2s(recOK))
+	return fmt.Sprintf("%s rec=%s chain=%s", class, b2s(recOK), chain)
 }
 
 // ---------------------------------------------------------------------------------------------------
